@@ -362,7 +362,8 @@ class Section(Entity):
         nf = self.file
         sources = []
         for blk in nf.blocks:
-            sources.extend(src for src in blk.sources
+            # sources at any depth of the block's source tree
+            sources.extend(src for src in blk.find_sources()
                            if (src.metadata is not None and
                                src.metadata.id == self.id))
         return sources
